@@ -674,7 +674,7 @@ __ywd_get_md(dt_ywd_t d)
 	return res;
 }
 
-static unsigned int
+static __attribute__((unused)) unsigned int
 __ywd_get_mon(dt_ywd_t d)
 {
 	int yd = __ywd_get_yday(d);
